@@ -83,6 +83,10 @@ def funcs : List Func := [x509_validateSigningTime, x509_validateCABasicConstrai
 /-- meaning of a call into package x509, calls nesting at most `n` deep -/
 notation "call[" sig ", " sigSelf "]" => sem (prims sig sigSelf) funcs
 
+def chainFn : Purpose → String
+  | .codeSigning => "ValidateCodeSigningCertChain"
+  | .timestamping => "ValidateTimestampingCertChain"
+
 /-- the Go error value each error class of the model stands for: (function, ordinal of the error
     constructor in that function's source, wrapped errors).  Hand-written expectation. -/
 def site (p : Purpose) : Err → Val
@@ -104,7 +108,15 @@ def site (p : Purpose) : Err → Val
     | .codeSigning => .err "validateCodeSigningExtendedKeyUsage" 0 []
     | .timestamping => .err "validateTimestampingExtendedKeyUsage" 0 []
   | .ekuNotCritical => .err "validateTimestampingExtendedKeyUsage" 1 []
-  | _ => .opaque 99
+  | .empty => .err (chainFn p) 0 []
+  | .notSelfSigned1 => .err (chainFn p) 1 [primErr]
+  | .notSelfIssued1 => .err (chainFn p) 2 []
+  | .rootSigErr => .err (chainFn p) 4 [primErr]
+  | .rootNotSelfSigned => .err (chainFn p) 5 []
+  | .selfSignedLeaf => .err (chainFn p) 6 []
+  | .selfSignedIntermediate => .err (chainFn p) 7 []
+  | .issuedByErr => .err (chainFn p) 8 [primErr]
+  | .notIssuedBy => .err (chainFn p) 9 []
 
 /-- a model result as the Go `error` value -/
 def errV (p : Purpose) : R → Val
@@ -204,11 +216,11 @@ theorem band_dec (ku : Nat) (k : Nat) : decide ((Int.ofNat (ku &&& 2^k)) = 0) = 
 /-- the evaluation rules of the interpreter, as one simp set -/
 macro "go_eval" "[" ts:Lean.Parser.Tactic.simpLemma,* "]" : tactic =>
   `(tactic| simp [run, pack, execBlock, exec, eval, evalArgs, sbindAll, sbind, sdefine, sassign, fset, sget, fget,
-      spop, binop, valEq, builtin, Int.natCast_inj, $ts,*])
+      spop, binop, builtin, Int.natCast_inj, $ts,*])
 
 macro "go_eval_at" h:ident "[" ts:Lean.Parser.Tactic.simpLemma,* "]" : tactic =>
   `(tactic| simp [run, pack, execBlock, exec, eval, evalArgs, sbindAll, sbind, sdefine, sassign, fset, sget, fget,
-      spop, binop, valEq, builtin, Int.natCast_inj, $ts,*] at $h:ident)
+      spop, binop, builtin, Int.natCast_inj, $ts,*] at $h:ident)
 
 section
 variable (sig : Sig) (sigSelf : SigSelf)
@@ -302,7 +314,7 @@ theorem csKuLoop (fn : String) (cal) (cv : Val) : ∀ (exts : List (Int × Bool)
       by_cases ho : o = 15 <;> cases cr <;>
         simp [csKuBody, rangeBody, x509_validateCodeSigningKeyUsagePresent, extV, field,
           execBlock, exec, eval, evalArgs, sbindAll, sbind, sdefine, sassign, fset, sget, fget,
-          spop, binop, valEq, builtin, ho]
+          spop, binop, builtin, ho]
     generalize (fun st => execBlock ⟨fn, prims sig sigSelf, cal⟩ st csKuBody) = F at ih step ⊢
     simp only [oidKeyUsage] at ih ⊢
     by_cases ho : o = 15
@@ -374,6 +386,7 @@ theorem validateCodeSigningCACertificate_eq (n : Nat) (c : Cert) (exts) (h : Ext
     | ok u => simp [errV] at h2 ⊢; go_eval [x509_validateCodeSigningCACertificate, h1, h2, prims]
     | error e =>
       cases e <;> simp [errV, site] at h2 ⊢ <;> go_eval [x509_validateCodeSigningCACertificate, h1, h2, prims]
+
 
 end
 end NotationCore.Tie.Code.X509
